@@ -20,6 +20,7 @@ func vpScalar(v string) *yaml.Node {
 func vpMergeKey() *yaml.Node {
 	return &yaml.Node{Kind: yaml.ScalarNode, Tag: "!!merge", Value: "<<"}
 }
+
 // vpAlias: the parser gives an alias node the anchor's name as its Value.
 func vpAlias(n *yaml.Node) *yaml.Node {
 	return &yaml.Node{Kind: yaml.AliasNode, Alias: n, Value: n.Anchor}
